@@ -36,6 +36,12 @@ type C12Opts struct {
 	// makes each of them place nodes in its own tree, through a grouping of the other one, and by
 	// augments into a third module.
 	TwinNS bool
+	// Coincide plants places where names COINCIDE along a path across modules (see c12coincide.go):
+	// an explicit case / container / list / shorthand choice member written by one module, holding
+	// that module's own nodes at several depths, into which other modules graft nodes named like the
+	// target, like the target's parent, like the top-level ancestor, like the augmenting module or
+	// its prefix; and the generic augments draw their body names from the same pool.
+	Coincide bool
 }
 
 // C12Expect is what the oracle expects of one node.
@@ -93,6 +99,7 @@ type c12gen struct {
 	set         *Set
 	gseq        int
 	aseq        int
+	cseq        int
 	gInfo       map[*Node]*gmeta // per grouping
 	trees       map[*Module]*xnode
 	feat        map[string]int
@@ -128,6 +135,9 @@ func GenerateC12(r *rand.Rand, opt C12Opts) *C12Set {
 	nm := 1 + r.Intn(4)
 	if (opt.SharedAction || opt.TwinNS) && nm < 3 {
 		nm = 3
+	}
+	if opt.Coincide && nm < 2 {
+		nm = 2
 	}
 	names := []string{"a", "b", "c", "d"}
 	var mods []*Module
@@ -248,6 +258,10 @@ func GenerateC12(r *rand.Rand, opt C12Opts) *C12Set {
 	if opt.SharedAction {
 		shared = g.plantSharedAction(mods)
 	}
+	var coinc []coincInst
+	if opt.Coincide {
+		coinc = g.plantCoincide()
+	}
 	// expected trees before augments
 	for _, m := range mods {
 		root := &xnode{name: m.Name, kw: "module", by: m}
@@ -275,6 +289,7 @@ func GenerateC12(r *rand.Rand, opt C12Opts) *C12Set {
 	}
 	// augments (applied to the expected trees as they are generated, so chains are possible)
 	g.augmentShared(shared, mods)
+	g.augmentCoincide(coinc, mods)
 	// each near-twin module grafts nodes into a third module
 	if t := g.forceTarget; t != nil {
 		for _, m := range g.twins {
@@ -313,6 +328,14 @@ func GenerateC12(r *rand.Rand, opt C12Opts) *C12Set {
 	if g.broken {
 		out.Expect = nil
 		return out
+	}
+	for _, root := range g.trees {
+		if looksImplied(root) {
+			// a WRITTEN case whose only child carries its name cannot be told from the case FixChoice
+			// inserts: no expectations for such a set
+			out.Expect = nil
+			return out
+		}
 	}
 	for m, root := range g.trees {
 		g.emit(out.Expect, m.fullName(), "", root, nil)
@@ -913,11 +936,17 @@ func (g *c12gen) augment(a *Module, mods []*Module, foreign bool) {
 	for i := 0; i < nb; i++ {
 		g.aseq++
 		name := fmt.Sprintf("ag%d", g.aseq)
+		if g.opt.Coincide && g.chance(0.6) {
+			if nm := g.coincName(a, t, target, implicit, au); nm != "" {
+				name = nm
+			}
+		}
 		switch k := g.r.Intn(10); {
 		case tkw == "choice" && k <= 3:
 			cs := au.add("case", name)
 			g.fill(a, cs, 3, inOps, nil, false)
-			if len(cs.Kids) == 0 {
+			if len(cs.Kids) == 0 || (g.opt.Coincide && len(cs.Kids) == 1) {
+				// (a written case whose only child carries its name would look like an implied one)
 				cs.add("leaf", name+"l").add("type", "string")
 			}
 		case k <= 5:
